@@ -579,7 +579,7 @@ func c07MemberCase(version, newMem string, self bool, sPrev, tPrev, jr string, s
 
 func c07EnumGeneric(size, shard, nshards int, emit func(c07Case)) {
 	idx := 0
-	types := []string{"message", "topic", "custom-at-self", "custom-at-other", "third_party_invite", "redaction-same", "redaction-other", "aliases-own", "aliases-other", "join_rules", "first-join", "first-join-2prev"}
+	types := []string{"message", "topic", "custom-at-self", "custom-at-other", "third_party_invite", "third_party_invite-events-entry-high", "third_party_invite-events-entry-low", "topic-events-entry-high", "message-events-entry-low", "redaction-same", "redaction-other", "aliases-own", "aliases-other", "join_rules", "first-join", "first-join-2prev"}
 	for _, version := range vfVersions {
 		for _, kind := range types {
 			for _, sMem := range c07PrevMems {
@@ -629,7 +629,26 @@ func c07GenericCase(version, kind, sMem string, lvl int64, fed, sender string, h
 	r := c07Room{Version: version, HasPL: hasPL, JoinRule: "public", Federate: fed, Members: map[string]string{c07Creator: "join"}}
 	r.Members[sender] = sMem
 	// every relevant threshold is 50 so that lvl is <, =, > the requirement
-	r.PL = c07PLContent(users, map[string]int64{"events_default": 50, "state_default": 50, "invite": 50, "redact": 50}, nil, nil)
+	var events map[string]int64
+	switch kind {
+	case "third_party_invite-events-entry-high":
+		events = map[string]int64{"m.room.third_party_invite": 100} // the invite level (50) decides, not this entry
+	case "third_party_invite-events-entry-low":
+		events = map[string]int64{"m.room.third_party_invite": 0}
+	case "topic-events-entry-high":
+		events = map[string]int64{"m.room.topic": 51} // explicit entries DO decide for ordinary types
+	case "message-events-entry-low":
+		events = map[string]int64{"m.room.message": 49}
+	}
+	r.PL = c07PLContent(users, map[string]int64{"events_default": 50, "state_default": 50, "invite": 50, "redact": 50}, events, nil)
+	if events != nil {
+		pl := r.PL
+		em := jv{K: 'o'}
+		for k, v := range events {
+			em = em.with(k, jnum(v))
+		}
+		r.PL = pl.with("events", em)
+	}
 	e := raEv{Sender: sender, Content: jv{K: 'o'}, Prev: []string{"$p:a.example"}}
 	if vtraits[version].Format == 2 {
 		e.Prev = []string{"$" + strings.Repeat("P", 43)}
@@ -645,8 +664,12 @@ func c07GenericCase(version, kind, sMem string, lvl int64, fed, sender string, h
 		e.Type, e.StateKey = "org.example.custom", raSK(sender)
 	case "custom-at-other":
 		e.Type, e.StateKey = "org.example.custom", raSK(c07Carol)
-	case "third_party_invite":
+	case "third_party_invite", "third_party_invite-events-entry-high", "third_party_invite-events-entry-low":
 		e.Type, e.StateKey = "m.room.third_party_invite", raSK("tok")
+	case "topic-events-entry-high":
+		e.Type, e.StateKey = "m.room.topic", raSK("")
+	case "message-events-entry-low":
+		e.Type = "m.room.message"
 	case "redaction-same":
 		e.Type, e.Redacts = "m.room.redaction", "$x:"+dom
 	case "redaction-other":
@@ -720,7 +743,7 @@ func c07EnumTPI(size, shard, nshards int, emit func(c07Case)) {
 	for _, version := range vfVersions {
 		for _, tMem := range c07PrevMems {
 			for _, tpiSender := range []string{"same", "other", "absent-event"} {
-				for _, keys := range []string{"public_key", "public_keys", "both", "other-key-only", "wrong-length-key"} {
+				for _, keys := range []string{"public_key", "public_keys", "both", "both-single-valid", "other-key-only", "wrong-length-key"} {
 					for _, sig := range []string{"valid", "other-key", "garbage", "none"} {
 						for _, fault := range []string{"", "mxid-mismatch", "no-token", "no-signed", "no-mxid"} {
 							for _, sMem := range []string{"join", "leave"} {
@@ -783,6 +806,9 @@ func c07TPICase(version, tMem, tpiSender, keys, sig, fault, sMem string) c07Case
 			tc = jobj("display_name", jstr("x"), "public_keys", jarr(jobj("public_key", jstr(c07PubB64("idkey9"))), one))
 		case "both":
 			tc = jobj("display_name", jstr("x"), "public_key", jstr(c07PubB64("idkey9")), "public_keys", jarr(one))
+		case "both-single-valid":
+			// the signing key is the single public_key; the list holds unrelated keys only
+			tc = jobj("display_name", jstr("x"), "public_key", jstr(c07PubB64("idkey1")), "public_keys", jarr(jobj("public_key", jstr(c07PubB64("idkey9"))), jobj("public_key", jstr(c07PubB64("idkey8")))))
 		case "other-key-only":
 			tc = jobj("display_name", jstr("x"), "public_key", jstr(c07PubB64("idkey8")), "public_keys", jarr(jobj("public_key", jstr(c07PubB64("idkey9")))))
 		default: // a key of the wrong length next to nothing usable
